@@ -1,6 +1,7 @@
 package mon
 
 import (
+	"strconv"
 	"sync"
 	"time"
 
@@ -56,7 +57,7 @@ func (r *RecReplayer) tick() int64 {
 }
 
 // Put implements sse.Replayer.
-func (r *RecReplayer) Put(m *sse.Message, topics []string) (*sse.Message, error) {
+func (r *RecReplayer) Put(m *sse.Message, topics []string) (rout *sse.Message, rerr error) {
 	start := r.tick()
 	r.mu.Lock()
 	r.puts++
@@ -69,7 +70,7 @@ func (r *RecReplayer) Put(m *sse.Message, topics []string) (*sse.Message, error)
 		time.Sleep(r.PutLatency)
 		e.VTime = time.Now() // the instant the wrapped replayer sees
 	}
-	var out *sse.Message
+	var out, ghost *sse.Message
 	var err error
 	switch fault {
 	case "panic":
@@ -83,13 +84,26 @@ func (r *RecReplayer) Put(m *sse.Message, topics []string) (*sse.Message, error)
 		nilMap["x"] = 1 // runtime error: a panic that carries an error value
 	case "err":
 		err = NewInjected("put", n, r.ErrKind, r.WrapTargets)
+		if n%2 == 0 {
+			// a replayer that hands back a copy of its own together with the error (it stamped an ID and
+			// then failed to store the message): what is delivered is still the published message
+			ghost = m.Clone()
+			ghost.ID = sse.ID("ghost-" + strconv.Itoa(n))
+		}
 	default:
 		if r.Inner != nil {
 			out, err = r.Inner.Put(m, topics)
+		} else if n%3 == 0 {
+			out = nil // "nothing to add": (nil, nil) is a legal answer of a Replayer that keeps the message as it is
 		} else {
 			out = m
 		}
 	}
+	defer func() {
+		if ghost != nil {
+			rout = ghost
+		}
+	}()
 	if out != nil {
 		e.ID, e.IDSet = out.ID.String(), out.ID.IsSet()
 	} else {
